@@ -2930,11 +2930,11 @@ def SIS_heterogeneous_pairwise(Sk0, Ik0, SkSl0, SkIl0, IkIl0, tau, gamma,
     Ik = Nk[:,None] - Sk
     I = Ik.sum(axis=0)
     if return_full_data:
-        SkSl = X.T[kcount:kcount+kcaount**2]
+        SkSl = X.T[kcount:kcount+kcount**2]
         SkIl = X.T[kcount+kcount**2:]
         SkSl.shape = (kcount,kcount,tcount)
         SkIl.shape = (kcount,kcount,tcount)
-        IkIl = NkNl - SkSl - SkIl - SkIl.T
+        IkIl = NkNl[:,:,None] - SkSl - SkIl - SkIl.transpose(1,0,2)
         return times, S, I, Sk, Ik, SkIl, SkSl, IkIl
     else:
         return times, S, I
